@@ -112,6 +112,8 @@ class Origins:
         self.cfg = CFG(self.body)
         self.path = path
         self.track_mut = True
+        self.inline_new = True   # look through pure helpers that do not exist in the reference tree
+        self.depth = 0
         self.argc = self.body["argc"]
         self.memo = {}
         self.active = set()
@@ -339,7 +341,42 @@ class Origins:
                 ty = self.body["locals"][pl["l"]]["ty"]
                 if isinstance(ty, dict) and "ref" in ty and ty.get("mut"):
                     return node + ("@bb%d" % self._blk(bb),)
+        if self.inline_new and self.depth < 3:
+            inl = self._inline_helper(r["path"], node)
+            if inl is not None:
+                return inl
         return node
+
+    def _inline_helper(self, path, node):
+        """A call to a pure crate-local function that does not exist in the reference tree (a helper
+        introduced by an edit) is replaced by the helper's own return origin with the arguments substituted.
+        Helpers returning bool stay calls (guard utilities expand them with their conditions)."""
+        prog = getattr(self.fn, "prog", None)
+        if prog is None:
+            return None
+        cands = [g for g in prog.by_path.get(path, []) if g.body and g.kind in ("fn", "assoc_fn")]
+        if len(cands) != 1:
+            return None
+        g = cands[0]
+        if g.id == self.fn.id or not prog.is_new(g) or g.body["locals"][0]["ty"] == "bool":
+            return None
+        key = ("inl", g.id)
+        try:
+            sub = Origins(g)
+            sub.depth = self.depth + 1
+            ret = sub.return_origin()
+        except RecursionError:
+            return None
+        bad = [x for x in walk(ret) if x[0] in ("loop", "unknown", "uninit")]
+        if bad:
+            return None
+        args = node[3]
+
+        def rep(x):
+            if x[0] == "param" and 1 <= x[1] <= len(args):
+                return args[x[1] - 1]
+            return None
+        return subst(ret, rep)
 
     def _rvalue(self, rv, bb, j):
         k = rv["k"]
